@@ -3,7 +3,8 @@
    [run_case v p file] (C01/Driver.v) opens [file] like Minidump::read and requests the eleven
    modelled streams; fields carry Ok/Err/Panic/OutOfFuel, the ledger every Vec::with_capacity.
    Every loop of the model runs on fuel |file| + 1 ([fuel_of]). *)
-From RM Require Import C01.Model C01.Proofs C01.Driver C01.Final C01.Agree C01.QModel C01.QProofs Gen.C01Sites C01.Sites C01.SitesCheck.
+From RM Require C08.Model C08.Proofs.
+From RM Require Import C01.Model C01.Proofs C01.Driver C01.Final C01.Agree C01.QModel C01.QProofs C01.LModel C01.LProofs Gen.C01Sites C01.Sites C01.SitesCheck.
 Open Scope Z_scope.
 
 (* No modelled site panics, for any byte string, in debug and release builds (fixed code). *)
@@ -210,6 +211,32 @@ Theorem c01_crash_queries_total : forall p file, wf_bytes file -> blen file < T6
 Proof. exact run_queries_total. Qed.
 Print Assumptions c01_crash_queries_total.
 
+(* ---- round 5: the address lookups of the module list, memory list, Memory64 list, memory-info list and Linux maps
+   (from_modules / from_regions + module_at_address / memory_at_address / memory_info_at_address / by_addr), over C08's model of
+   into_rangemap_safe and range-map, for ANY list of optional ranges over u64 (empty, overlapping, duplicated, at the top of the
+   address space): the final `RangeMap::try_from_iter(vec).unwrap()` does not panic; every index stored in the table — the ones
+   `by_addr` sends through `&self.regions[index]` — is a position of the list; a lookup answers None (-1) or a position of the
+   list whose own range contains the address, so `&self.regions[index]` / `&self.modules[index]` cannot be out of bounds *)
+Theorem c01_address_lookup_total : forall (ranges : list (option (Z * Z))) addr, Forall wf_orange ranges ->
+  table_of ranges = Ok (the_table ranges) /\
+  (forall R i, In (R, i) (the_table ranges) -> 0 <= i < blen ranges) /\
+  exists i, index_at (the_table ranges) (blen ranges) addr = Ok i /\
+            (i = -1 \/ (0 <= i < blen ranges /\ exists r, nth_error ranges (Z.to_nat i) = Some (Some r) /\ C08.Model.contains r addr = true)).
+Proof. exact address_lookup_total. Qed.
+Print Assumptions c01_address_lookup_total.
+(* MinidumpThreadList::get_thread (the id map keeps the last position inserted): the position is inside the thread vector *)
+Theorem c01_get_thread_index_total : forall e raws id,
+  (forall t, get_thread_index e raws id <> Pan t) /\ get_thread_index e raws id <> NoFuel /\
+  forall i, get_thread_index e raws id = Ok i -> -1 <= i < blen raws.
+Proof. exact get_thread_index_rsat. Qed.
+Print Assumptions c01_get_thread_index_total.
+(* the five lookup fields of the correspondence run (AM AL AI A6 TG: by_addr count, element found at six probe addresses of the
+   first eight elements of each list, get_thread of the first eight ids), any byte string, both profiles *)
+Theorem c01_lookups_total : forall p file, wf_bytes file -> blen file < T62 ->
+  forall tag f, In (tag, f) (run_lookups p file) -> (forall t, f <> FPan t) /\ f <> FNoFuel.
+Proof. exact run_lookups_total. Qed.
+Print Assumptions c01_lookups_total.
+
 (* ---- round 4: every trap / loop / allocation / guard site of minidump/src and minidump-common/src found by
    translate/c01_sites.py (Gen/C01Sites.v, regenerated from the source on every run) is a row of the reviewed table
    C01/Sites.v with the same count and digest, and every row is classified: covered by one of the theorems of this file
@@ -279,7 +306,7 @@ Definition c01_cover_index :=
    c01_header_total, c01_exception_print_total, c01_xstate_iter_total, c01_misc_info_total, c01_thread_contexts_print_total,
    c01_memory_read_in_bounds, c01_linux_kv_bounded, c01_crashpad_info_total, c01_mac_crash_info_total, c01_fixed_streams_total,
    c01_print_sites_total, c01_crash_queries_total, c01_memory_range_sound, c01_last_error_in_bounds, c01_crash_address_total,
-   c01_elf_debug_id_reads).
+   c01_elf_debug_id_reads, c01_address_lookup_total, c01_get_thread_index_total, c01_lookups_total).
 Example c01_nonvacuous_queries :
   memory_range Debug 18446744073709551599 16 = Ok (Some (18446744073709551599, 18446744073709551614)) /\
   memory_range Debug 18446744073709551600 16 = Ok None /\ memory_range Debug 5 0 = Ok None /\
@@ -289,3 +316,22 @@ Example c01_nonvacuous_queries :
   run_queries Debug nv_dump = [(29, FErr EStreamNotFound); (30, FErr EStreamNotFound); (31, FOk [16; 16; 4198400; 4198400]); (32, FOk [1; 1; 1; 1])] /\
   (length site_table > 300)%nat /\ (count_cls is_covered > 80)%nat.
 Proof. vm_compute. repeat split; try reflexivity; apply Nat.leb_le; reflexivity. Qed.
+(* round 5: a table from overlapping / empty / top-of-address-space ranges: the second range overlaps the first with another
+   value and is dropped, the None is skipped; lookups answer positions of the list *)
+Example c01_nonvacuous_lookups :
+  let ranges := [Some (10, 19); None; Some (15, 30); Some (18446744073709551600, 18446744073709551615)] in
+  Forall wf_orange ranges /\
+  table_of ranges = Ok [((10, 19), 0); ((18446744073709551600, 18446744073709551615), 3)] /\
+  index_at (the_table ranges) 4 12 = Ok 0 /\ index_at (the_table ranges) 4 25 = Ok (-1) /\
+  index_at (the_table ranges) 4 18446744073709551615 = Ok 3 /\
+  index_at [((10, 19), 7)] 4 12 = Pan PANIC_LOOKUP_INDEX /\
+  lookups Debug [(4096, 256); (4200, 100); (0, 0); (18446744073709551599, 16)] =
+    Ok [2; 0; 0; -1; -1; 0; 0; 0; 0; 0; 0; 0; 0; -1; -1; -1; -1; -1; 3; 3; 3; -1; -1; 3; 3] /\
+  run_lookups Debug nv_dump = [(33, FErr EStreamNotFound); (34, FOk [1; 0; 0; -1; -1; 0; 0]); (35, FErr EStreamNotFound);
+                               (36, FErr EStreamNotFound); (37, FOk [0; 1])] /\
+  get_thread_index LE [[1; 0; 0; 0]; [2; 0; 0; 0]; [1; 0; 0; 0]] 1 = Ok 2.
+Proof.
+  cbv zeta. split.
+  - repeat constructor; cbn; unfold C08.Proofs.wf_range, two64; cbn; repeat split; try discriminate; reflexivity.
+  - vm_compute. repeat split; reflexivity.
+Qed.
